@@ -310,6 +310,214 @@ def relative_window_cases(run):
                                 theorem="C01 (recovery; not a theorem)")
 
 
+def independent_truth_cases(run):
+    """ground truth that does not come from the library: curves computed
+    from the published closed forms (extended precision, the oracle of C02)
+    with a non-zero baseline; fitting the shipped model recovers the
+    generating parameters"""
+    from nanite import model
+    from . import c02
+    for mk in ("hertz_para", "hertz_cone", "hertz_pyr3s",
+               "sneddon_spher_approx", "power_layer_clifford_2009"):
+        ekey = "E_S" if mk.startswith("power_layer") else "E"
+        for E, blf, seg in ((4000.0, 0.05, 0), (300.0, -0.08, 1),
+                            (30000.0, 0.02, 0)):
+            over = {ekey: E, "contact_point": 2.5e-7, "baseline": 0.0}
+            if "R" in fits.default_params(mk):
+                over["R"] = 5e-6
+            true = fits.default_params(mk, **over)
+            x = np.concatenate([np.linspace(4e-6, -1.6e-6, 300),
+                                np.linspace(-1.6e-6, 4e-6, 151)[1:]])
+            f0 = np.array([float(c02.spec_value(mk, true, xi)) for xi in x])
+            true["baseline"] = blf * float(np.max(f0))
+            f = np.array([float(c02.spec_value(mk, true, xi)) for xi in x])
+            cols = {"force": f, "height (measured)": x - f / .05,
+                    "height (piezo)": x - f / .05,
+                    "segment": np.concatenate([np.zeros(300, np.uint8),
+                                               np.ones(150, np.uint8)]),
+                    "time": np.arange(x.size) * 1e-3, "tip position": x}
+            fmax = float(np.max(np.abs(f - true["baseline"])))
+            span = float(np.ptp(x))
+            cfg = {"independent-truth": mk, ekey: E,
+                   "baseline/Fmax": blf, "segment": seg}
+            key = "independent-truth:" + common.sha(cfg)[:16]
+            run.case(cfg, kind="independent-truth")
+            try:
+                idnt = curves.make_indentation(cols)
+                p = model.models_available[mk].get_parameter_defaults()
+                for n_ in p:
+                    if n_ in true and n_ not in (ekey, "contact_point",
+                                                 "baseline"):
+                        p[n_].set(value=true[n_])
+                if mk.startswith("power_layer"):
+                    p["E_L"].set(vary=False)
+                    p["t"].set(vary=False)
+                p[ekey].set(value=E * 1.5)
+                p["contact_point"].set(value=3e-7)
+                p["baseline"].set(value=true["baseline"] * 0.9)
+                with warnings.catch_warnings():
+                    warnings.simplefilter("ignore")
+                    idnt.fit_model(model_key=mk, params_initial=p,
+                                   segment=seg, weight_cp=0)
+                fp = idnt.fit_properties
+                why = None
+                if not fp.get("success"):
+                    why = "fit reports success False"
+                else:
+                    pf = fp["params_fitted"]
+                    eE = abs(pf[ekey].value / E - 1)
+                    ec = abs(pf["contact_point"].value - 2.5e-7) / span
+                    eb = abs(pf["baseline"].value - true["baseline"]) / fmax
+                    sg = np.asarray(idnt["segment"]) == seg
+                    dv = float(np.max(np.abs(np.asarray(idnt["fit"])[sg]
+                                             - f[sg]))) / fmax
+                    if max(eE, ec, eb, dv) > 2e-6:
+                        why = (f"errors: modulus {eE:.2e}, contact point "
+                               f"{ec:.2e}, baseline {eb:.2e}, curve "
+                               f"{dv:.2e} (relative)")
+            except BaseException as e:
+                why = f"raised {type(e).__name__}: {e}"
+            if why:
+                run.failing(SITE, key, f"{cfg}: data from the published "
+                            f"closed form: {why}", payload={"kind": "rerun"},
+                            theorem="C01 (recovery; not a theorem)")
+
+
+GUESS_HEAD = """From Coq Require Import List String QArith Bool.
+From NV Require Import Model.Guess.
+Import ListNotations.
+Local Open Scope string_scope.
+Definition oq_eqb (a b : option Q) : bool :=
+  match a, b with Some x, Some y => Qeq_bool x y | None, None => true | _, _ => false end.
+Definition param_eqb (a b : param) : bool :=
+  String.eqb (p_name a) (p_name b) && Qeq_bool (p_value a) (p_value b) &&
+  Bool.eqb (p_vary a) (p_vary b) && oq_eqb (p_min a) (p_min b) && oq_eqb (p_max a) (p_max b).
+Fixpoint params_eqb (a b : list param) : bool :=
+  match a, b with
+  | [], [] => true
+  | x :: s, y :: t => param_eqb x y && params_eqb s t
+  | _, _ => false
+  end.
+"""
+
+
+def _q(v):
+    from fractions import Fraction
+    fr = Fraction(float(v))
+    return f"({fr.numerator} # {fr.denominator})"
+
+
+def _oq(v):
+    return "None" if not math.isfinite(float(v)) else f"(Some {_q(v)})"
+
+
+def _coq_params(ps):
+    return "[" + "; ".join(
+        "{| p_name := " + common.coq_string(n_) + f"; p_value := {_q(p_.value)}"
+        f"; p_vary := {'true' if p_.vary else 'false'}; p_min := {_oq(p_.min)}"
+        f"; p_max := {_oq(p_.max)} |}}" for n_, p_ in ps.items()) + "]"
+
+
+def guess_model_cases(run):
+    """guess_initial_parameters against its Coq model (Model/Guess.v): the
+    model's defaults, the contact point from the curve, the non-NaN
+    ancillaries that name a parameter -- each clipped to the bounds --, for
+    every shipped model and for harness models with ancillaries / bounds,
+    on curves with and without a tip position column"""
+    import types
+    import lmfit
+    from nanite import model
+    from nanite.fit import guess_initial_parameters
+    from . import c18
+
+    def bounded(key):
+        m = c18.base_module(key, anc=True)
+
+        def get_parameter_defaults():
+            p = lmfit.Parameters()
+            p.add("E", value=500.0, min=0, max=1000.0)
+            p.add("R", value=1e-5, vary=False)
+            p.add("contact_point", value=0.0, min=-1e-7, max=1e-7)
+            p.add("baseline", value=0.0)
+            return p
+        m.get_parameter_defaults = get_parameter_defaults
+        m.compute_ancillaries = lambda fd: {
+            "E": 1234.0, "R": float("nan"), "other": 5.0,
+            "baseline": -2e-10}
+        m.parameter_anc_keys = ["E", "R", "other", "baseline"]
+        m.parameter_anc_names = ["anc E", "anc R", "anc other", "anc bl"]
+        m.parameter_anc_units = ["Pa", "m", "", "N"]
+        return m
+    extra = [c18.base_module("nv_guess_anc", anc=True), bounded("nv_guess_b")]
+    registered = []
+    exprs, descr = [], []
+    try:
+        for m_ in extra:
+            model.register_model(m_)
+            registered.append(m_.model_key)
+        keys = [k_ for k_ in sorted(model.models_available)
+                if k_ in registered or (getattr(getattr(
+                    model.models_available[k_], "module", None), "__file__",
+                    "") or "").startswith(str(common.REPO))]
+        cols = fits.model_curve("hertz_para", fits.default_params(
+            "hertz_para", E=3000.0, contact_point=2e-7), n_app=150, n_ret=60)
+        states = {}
+        a = curves.make_indentation(cols)
+        a.apply_preprocessing(["compute_tip_position", "correct_force_offset",
+                               "correct_tip_offset"])
+        states["tip-offset-corrected"] = a
+        b = curves.make_indentation(cols)
+        b.apply_preprocessing(["compute_tip_position"])
+        states["tip-position-only"] = b
+        c = curves.make_indentation({k_: v_ for k_, v_ in cols.items()
+                                     if k_ != "tip position"})
+        states["no-tip-position"] = c
+        for mk in keys:
+            md = model.models_available[mk]
+            for sname, idnt in states.items():
+                for ca in (True, False):
+                    for ma in (True, False):
+                        cfg = {"guess": mk, "curve": sname,
+                               "common_ancillaries": ca,
+                               "model_ancillaries": ma}
+                        run.case(cfg, kind="guess-model")
+                        try:
+                            with warnings.catch_warnings():
+                                warnings.simplefilter("ignore")
+                                got = guess_initial_parameters(
+                                    idnt, model_key=mk, common_ancillaries=ca,
+                                    model_ancillaries=ma)
+                                cp = "None"
+                                if ca and "tip position" in idnt:
+                                    ix = idnt.estimate_contact_point_index()
+                                    cp = "(Some " + _q(np.asarray(
+                                        idnt["tip position"])[ix]) + ")"
+                                anc = []
+                                if ma:
+                                    for k_, v_ in idnt.get_ancillary_parameters(
+                                            model_key=mk).items():
+                                        anc.append(
+                                            f"({common.coq_string(k_)}, "
+                                            + ("None" if np.isnan(v_) else
+                                               f"Some {_q(v_)}") + ")")
+                            dfl = md.get_parameter_defaults()
+                        except BaseException as e:
+                            run.failing(SITE, "guess:" + common.sha(cfg)[:12],
+                                        f"{cfg}: raised {type(e).__name__}: "
+                                        f"{e}", payload={"kind": "rerun"})
+                            continue
+                        exprs.append(
+                            f"params_eqb (guess {_coq_params(dfl)} {cp} "
+                            f"[{'; '.join(anc)}]) {_coq_params(got)}")
+                        descr.append(str(cfg))
+    finally:
+        for k_ in registered:
+            if k_ in model.models_available:
+                model.deregister_model(model.models_available[k_])
+    fits.eval_bool_cases(run, "c01_guess", exprs, descr, head=GUESS_HEAD,
+                         chunk=30)
+
+
 def default_guess_sequences(run):
     """the documented workflow 'get the initial parameters, edit them, fit',
     followed by a fit with the library's own initial guess
@@ -686,6 +894,8 @@ def check(run):
     default_guess_sequences(run)
     pipeline_change_sequences(run)
     relative_window_cases(run)
+    independent_truth_cases(run)
+    guess_model_cases(run)
     geometry_cases(run)
     geometry_relative_cases(run)
     process_state_cases(run)
